@@ -70,6 +70,11 @@ def run(tier, seed, replay=None):
                     {k: ev[k] for k in ev if k in ("pos", "to", "len", "version", "art")})
             else:
                 sig = {"kind": ev["e"], "impl": ev.get("impl")}
+                if ev["e"] == "conc":
+                    sig = {"kind": "conc", "loaders": ev.get("loaders")}
+                    verdict.violation(sig, "%d loaders at work at the same time: %d of %d DUMP payloads (expected %d) carry a trailer that is not the CRC-64 of their own bytes" % (
+                        ev["loaders"], ev["bad"], ev["payloads"], ev["expected"]), {"family": "crc", "event": ev})
+                    continue
                 what = ev.get("msg") if "msg" in ev else "of %s random bytes written in chunks ending at %s" % (ev.get("n"), ev.get("cuts"))
                 detail = "CRC-64 of message %s by %s is not the Redis CRC-64 (register after some write differs from Crc.tla)" % (what, ev.get("impl", "harness reference"))
             verdict.violation(sig, detail, {"family": "crc", "event": ev})
